@@ -53,6 +53,14 @@ pub fn fn_add(a: &U256, b: &U256) -> U256 {
     r
 }
 
+/// a mod n for any 256-bit a (n > 2^255, so a single subtraction suffices)
+pub fn fn_reduce(a: &U256) -> U256 {
+    if u256_cmp(a, &SM2_N) >= 0 {
+        return u256_sub(a, &SM2_N).0;
+    }
+    *a
+}
+
 pub fn fn_sub(a: &U256, b: &U256) -> U256 {
     let (mut r, c) = u256_sub(a, b);
     if c {
